@@ -24,7 +24,13 @@ def run(ctx):
     extra = [dict(pool="functor", nw=2, rq=1, calls=[dict(n=5, chunk=1, ordered=True, lazy=True)]),
              dict(pool="functor", nw=3, rq=1, wq=1, calls=[dict(n=6, chunk=2, ordered=True)]),
              dict(pool="functor", nw=1, calls=[dict(n=1, chunk=3, ordered=False, lazy=True)]),
-             dict(pool="factory", nw=2, quota=1, calls=[dict(n=4, chunk=1, ordered=True, lazy=True)])]
+             dict(pool="factory", nw=2, quota=1, calls=[dict(n=4, chunk=1, ordered=True, lazy=True)]),
+             # every call terminates, also on a pool that was used before (empty input after a non-empty one and back)
+             dict(pool="functor", nw=1, calls=[dict(n=2, chunk=1, ordered=True), dict(n=0, chunk=1, ordered=True)]),
+             dict(pool="functor", nw=2, calls=[dict(n=1, chunk=1, ordered=False), dict(n=0, chunk=1, ordered=True, lazy=True),
+                                               dict(n=2, chunk=2, ordered=True)]),
+             dict(pool="factory", nw=1, quota=2, calls=[dict(n=3, chunk=1, ordered=True), dict(n=0, chunk=1, ordered=False),
+                                                        dict(n=1, chunk=1, ordered=True)])]
     for i, s in enumerate(extra):
         s["judge"] = JUDGE
         s["name"] = "t%d" % i
